@@ -40,6 +40,8 @@ class BeamFresh:
         self.bcs = []  # resolved ("D"/"N", pt, nodes, dofs, values, unknowns) or ("L", LagrangeCondition args)
         self.iters = 0
         self.solved = False
+        self.d_points = set()  # points of the frame holding a full Dirichlet condition
+        self.hinged = False
 
     @staticmethod
     def gen_beam_config(rng):
@@ -73,7 +75,10 @@ class BeamFresh:
         for bc in self.bcs:
             if bc[0] == "D":
                 have.update(bc[5])
-        return set(self.un) <= have
+        if not set(self.un) <= have:
+            return False
+        # a hinge frees the relative rotation: with one clamped point only, the members beyond the hinge are a mechanism
+        return len(self.d_points) >= (2 if self.hinged else 1)
 
     def _connected(self):
         return any(bc[0] == "L" for bc in self.bcs)
@@ -93,13 +98,14 @@ class BeamFresh:
         elif name == "dirichlet":
             full = not self._anchored()
             k = len(self.un) if full else int(rng.integers(1, len(self.un) + 1))
-            op.update(point=0 if full else int(rng.choice([0, 2, len(self.pts) - 1])), unknowns=[self.un[i] for i in (range(len(self.un)) if full else rng.permutation(len(self.un))[:k])],
+            free_pts = [i for i in (0, 2, len(self.pts) - 1) if i not in self.d_points] or [0]
+            op.update(point=free_pts[0] if full else int(rng.choice([0, 2, len(self.pts) - 1])), unknowns=[self.un[i] for i in (range(len(self.un)) if full else rng.permutation(len(self.un))[:k])],
                       vals=np.round(rng.uniform(-0.01, 0.01, k) * (rng.random() < 0.5), 5).tolist())
         elif name == "neumann":
             k = int(rng.integers(1, len(self.un) + 1))
             op.update(point=int(rng.integers(1, len(self.pts))), unknowns=[self.un[i] for i in rng.permutation(len(self.un))[:k]], vals=np.round(rng.uniform(-5, 5, k), 3).tolist())
         elif name == "connection":
-            op["kind"] = ["fixed", "hinged"][int(rng.integers(2))]
+            op["kind"] = ["fixed", "fixed", "hinged"][int(rng.integers(3))]
         elif name == "result":
             op["name"] = ["displacement", "ux", "uy", "rz"][int(rng.integers(4))]
         elif name == "set_iter":
@@ -160,6 +166,8 @@ class BeamFresh:
             if not np.array_equal(bl.dofs, bf.dofs) or not np.allclose(bl.dofsValues, bf.dofsValues, rtol=1e-12, atol=1e-15):
                 raise Violation("stale-bc", f"{name}: the new condition differs from a frame rebuilt from scratch")
             self.bcs.append(("D" if name == "dirichlet" else "N", bl.problemType, bl.nodes, bl.dofsValues, bl.dofs, bl.unknowns))
+            if name == "dirichlet" and set(op["unknowns"]) >= set(self.un):
+                self.d_points.add(op["point"])
             ctx.checked()
             return "ok"
         if name == "connection":
@@ -174,12 +182,16 @@ class BeamFresh:
                 new = sim.Bc_Lagrange[before:]
             for bc in new:
                 self.bcs.append(("L", bc.problemType, bc.nodes, bc.dofs, bc.unknowns, bc.dofsValues, bc.lagrangeCoefs, "Connection"))
+            if op["kind"] == "hinged":
+                self.hinged = True
             ctx.probe("beam_connection")
             return "ok"
         if name == "bc_init":
             with ctx.sut():
                 sim.Bc_Init()
             self.bcs = []
+            self.d_points = set()
+            self.hinged = False
             return "ok"
         if name == "kcmf":
             self._compare("kcmf")
